@@ -250,6 +250,8 @@ def check_commands(ctx, shape):
                               Eq(wr1[-1][1], m.items['request_id']) is not False, 'C02:O2.3c.reply-slot-registered')
                     rid = m.items['request_id']
                     ctx.prove(And(*[Implies(p, Not(Eq(i, rid))) for p, i, c_ in wr0]) if True else True, 'C02:O2.3c.request-id-fresh')
+                    ctx.prove(And(Eq(rid, old.get('commandsLocalCounter') + 1), Eq(so.get('commandsLocalCounter'), rid)),
+                              'C02:O2.3c.request-id-is-next-counter-value-never-reused')
                 else:
                     ctx.prove('request_id' not in m.items and len(wr1) == len(wr0), 'C02:O2.3c.no-slot-without-callback')
             return
